@@ -18,7 +18,12 @@ from typing import Any, Callable
 @functools.lru_cache(maxsize=256, typed=True)
 def _compile_pattern(pat: str) -> Callable[[str], Any]:
     res = translate(pat)
-    return re.compile(res).match
+    try:
+        return re.compile(res).match
+    except re.error:
+        # A character set that is not valid, e.g. the reversed range in '[c-a]':
+        # like in fnmatch, such a pattern matches no name.
+        return lambda name: None
 
 def qnmatch(name:str, pattern:str) -> bool:
     """Test whether C{name} matches C{pattern}.
